@@ -296,4 +296,158 @@ theorem mixedL_kept : ∀ (ocs : List Sk) (i : Nat) (hi : i < ocs.length) (n : S
   | o :: os, i+1, hi, n => by simpa using mixedL_kept os i (by simpa using hi) n
 end
 
+/-! ### "only additions" is a special case: `embeds o n` gives a description that keeps every old word -/
+
+theorem psum_map (g : Nat × Nat → Nat) (f : Nat × Nat → Nat × Nat) : ∀ (cm : List (Nat × Nat)),
+    psum g (cm.map f) = psum (fun p => g (f p)) cm
+  | [] => rfl
+  | p :: rest => by simp [psum, psum_map g f rest]
+
+mutual
+theorem kept_of_embeds : ∀ (a b : Sk), embeds a b = true → Kept a b a.size
+  | a, .fn bcs, h => by
+    by_cases hm : a.matches (.fn bcs) = true
+    · exact Kept.whole _ _ hm
+    · cases a with
+      | fn acs =>
+        simp only [embeds, hm, Bool.false_or] at h
+        obtain ⟨cm, kf, hinc, hk, hsum⟩ := keptL_of_embedsL acs bcs h
+        have := Kept.node acs bcs cm kf hinc hk
+        rw [hsum] at this
+        simpa using this
+      | delay _ => simp [embeds, hm] at h
+      | mem _ => simp [embeds, hm] at h
+      | feed _ => simp [embeds, hm] at h
+  | a, .delay _, h => by simp only [embeds] at h; exact Kept.whole _ _ h
+  | a, .mem _, h => by simp only [embeds] at h; exact Kept.whole _ _ h
+  | a, .feed _, h => by simp only [embeds] at h; exact Kept.whole _ _ h
+theorem keptL_of_embedsL : ∀ (as bs : List Sk), embedsL as bs = true →
+    ∃ (cm : List (Nat × Nat)) (kf : Nat × Nat → Nat), IncFrom as.length bs.length 0 0 cm ∧
+      (∀ (i j : Nat) (hi : i < as.length) (hj : j < bs.length), (i, j) ∈ cm → Kept as[i] bs[j] (kf (i, j))) ∧
+      psum kf cm = sizeL as
+  | [], bs, _ => ⟨[], fun _ => 0, trivial, by intro i j hi; simp at hi, rfl⟩
+  | a :: as, [], h => by simp [embedsL] at h
+  | a :: as, b :: bs, h => by
+    simp only [embedsL, Bool.or_eq_true, Bool.and_eq_true] at h
+    rcases h with ⟨h1, h2⟩ | h3
+    · have k1 := kept_of_embeds a b h1
+      obtain ⟨cm, kf, hinc, hk, hsum⟩ := keptL_of_embedsL as bs h2
+      refine ⟨(0, 0) :: cm.map (fun p => (p.1+1, p.2+1)),
+        fun p => if p = (0, 0) then a.size else kf (p.1 - 1, p.2 - 1), ?_, ?_, ?_⟩
+      · simp only [IncFrom, List.length_cons]
+        exact ⟨Nat.le_refl _, Nat.le_refl _, by omega, by omega, hinc.map_both⟩
+      · intro i j hi hj hm
+        rw [List.mem_cons] at hm
+        rcases hm with hm | hm
+        · simp only [Prod.mk.injEq] at hm
+          obtain ⟨rfl, rfl⟩ := hm
+          simpa using k1
+        · rw [List.mem_map] at hm
+          obtain ⟨q, hq, e⟩ := hm
+          simp only [Prod.mk.injEq] at e
+          obtain ⟨rfl, rfl⟩ := e
+          obtain ⟨_, _, hq1, hq2⟩ := hinc.mem q hq
+          have := hk q.1 q.2 hq1 hq2 hq
+          simpa using this
+      · simp only [psum, psum_map]
+        have e : psum (fun p : Nat × Nat => if (p.1 + 1, p.2 + 1) = (0, 0) then a.size
+            else kf (p.1 + 1 - 1, p.2 + 1 - 1)) cm = psum kf cm := by
+          apply psum_congr
+          intro p _
+          simp
+        rw [e, hsum]
+        simp
+    · obtain ⟨cm, kf, hinc, hk, hsum⟩ := keptL_of_embedsL (a :: as) bs h3
+      refine ⟨cm.map (fun p => (p.1, p.2+1)), fun p => kf (p.1, p.2 - 1), ?_, ?_, ?_⟩
+      · simpa using hinc.map_right.mono (Nat.le_refl _) (Nat.zero_le _)
+      · intro i j hi hj hm
+        rw [List.mem_map] at hm
+        obtain ⟨q, hq, e⟩ := hm
+        simp only [Prod.mk.injEq] at e
+        obtain ⟨rfl, rfl⟩ := e
+        obtain ⟨_, _, hq1, hq2⟩ := hinc.mem q hq
+        have := hk q.1 q.2 hq1 hq2 hq
+        simpa using this
+      · rw [psum_map]
+        simpa using hsum
+end
+
+/-! ### symmetry: a description of `o → n` read backwards describes `n → o` and keeps the same number of words -/
+
+mutual
+theorem matches_symm : ∀ (a b : Sk), a.matches b = true → b.matches a = true
+  | .delay x, .delay y, h => by simp [Sk.matches] at h ⊢; omega
+  | .mem x, .mem y, h => by simp [Sk.matches] at h ⊢; omega
+  | .feed x, .feed y, h => by simp [Sk.matches] at h ⊢; omega
+  | .fn x, .fn y, h => by
+      simp only [Sk.matches] at h ⊢
+      exact matchesL_symm x y h
+  | .delay _, .mem _, h | .delay _, .feed _, h | .delay _, .fn _, h
+  | .mem _, .delay _, h | .mem _, .feed _, h | .mem _, .fn _, h
+  | .feed _, .delay _, h | .feed _, .mem _, h | .feed _, .fn _, h
+  | .fn _, .delay _, h | .fn _, .mem _, h | .fn _, .feed _, h => by simp [Sk.matches] at h
+theorem matchesL_symm : ∀ (a b : List Sk), matchesL a b = true → matchesL b a = true
+  | [], [], _ => rfl
+  | a :: as, b :: bs, h => by
+      simp only [matchesL, Bool.and_eq_true] at h ⊢
+      exact ⟨matches_symm a b h.1, matchesL_symm as bs h.2⟩
+  | [], _ :: _, h | _ :: _, [], h => by simp [matchesL] at h
+end
+
+theorem Kept.symm {o n : Sk} {k : Nat} (h : Kept o n k) : Kept n o k := by
+  induction h with
+  | whole o n hm =>
+    have := Kept.whole n o (matches_symm o n hm)
+    rwa [← matches_size o n hm] at this
+  | node ocs ncs cm kf hinc _ ih =>
+    have := Kept.node ncs ocs (cm.map Prod.swap) (fun p => kf p.swap) hinc.map_swap (by
+      intro i j hi hj hm
+      rw [List.mem_map] at hm
+      obtain ⟨q, hq, e⟩ := hm
+      obtain ⟨a, b⟩ := q
+      simp only [Prod.swap, Prod.mk.injEq] at e
+      obtain ⟨rfl, rfl⟩ := e
+      exact ih _ _ _ _ hq)
+    rw [psum_map] at this
+    simpa using this
+
+/-- in particular a description never keeps more than the new layout holds -/
+theorem Kept.le_size_new {o n : Sk} {k : Nat} (h : Kept o n k) : k ≤ n.size := h.symm.le_size
+
+/-! ### the boundary -/
+
+theorem carried_le_old (o n : Sk) : carried (diff o n) ≤ o.size := by
+  have g := diff_good o n
+  simpa using carried_le_src (diff o n) 0 o.size g.sorted (fun p hp => ⟨Nat.zero_le _, (g.within p hp).1⟩)
+    (Nat.zero_le _)
+
+theorem carried_le_new (o n : Sk) : carried (diff o n) ≤ n.size := by
+  have g := diff_good o n
+  simpa using carried_le_dst (diff o n) 0 n.size g.sorted (fun p hp => ⟨Nat.zero_le _, (g.within p hp).2⟩)
+    (Nat.zero_le _)
+
+/-- decidable superset of the pairs on which the survivor clause can fail for the pinned algorithm: the edit is
+"only additions" (`embeds o n`) but the pair is outside `addOnly` and outside `mixedOk`, or "only removals"
+and outside `removeOnly` and `mixedOk`. -/
+def survivorsMayFail (o n : Sk) : Bool :=
+  (embeds o n && !(addOnly o n || mixedOk o n)) || (embeds n o && !(removeOnly o n || mixedOk o n))
+
+theorem survivors_of_not_mayFail (o n : Sk) (h : survivorsMayFail o n = false) :
+    (embeds o n = true → carried (diff o n) = o.size) ∧ (embeds n o = true → carried (diff o n) = n.size) := by
+  simp only [survivorsMayFail, Bool.or_eq_false_iff, Bool.and_eq_false_iff, Bool.not_eq_false',
+    Bool.or_eq_true] at h
+  refine ⟨fun he => ?_, fun he => ?_⟩
+  · rcases h.1 with h1 | h1 | h1
+    · rw [he] at h1; cases h1
+    · exact addOnly_carried o n h1
+    · have := mixed_kept o n h1 _ (kept_of_embeds o n he)
+      have := carried_le_old o n
+      omega
+  · rcases h.2 with h1 | h1 | h1
+    · rw [he] at h1; cases h1
+    · exact removeOnly_carried o n h1
+    · have := mixed_kept o n h1 _ (kept_of_embeds n o he).symm
+      have := carried_le_new o n
+      omega
+
 end Mimium.StateTree
